@@ -39,24 +39,36 @@ func runC18(c *Ctx) {
 	}{{nodeIds, "GetMembers"}, {isResp, "GetMembers"}, {partition, "GetPartition"}} {
 		n := 0
 		ok := true
-		for _, cs := range CallsIn(q.fn) {
-			o := CalleeObj(cs.Common())
-			if o == nil || o.Pkg() == nil || !strings.HasSuffix(o.Pkg().Path(), "go-chash") || o.Name() == "Id" || o.Name() == "Capacity" {
-				continue
-			}
-			n++
-			cc := cs.Common()
-			if o.Name() != q.method || !IsLoadOfField(cc.Value, chashF) {
-				ok = false
-				continue
-			}
-			arg := cc.Args[0]
-			if !valueIsResultOf(arg, func(c2 *ssa.CallCommon) bool {
-				return CalleeFn(replKey)(c2) && originatesFromParam(c2.Args[0], q.fn.Params[1])
-			}) {
-				ok = false
+		var scan func(fn *ssa.Function, depth int)
+		scan = func(fn *ssa.Function, depth int) {
+			for _, cs := range CallsIn(fn) {
+				// the ring query extracted into a new helper: look inside, the helper's parameters
+				// standing for this call's arguments
+				if h := CalleeFunc(cs.Common()); h != nil && h.Blocks != nil && IsNewFunc(h) && depth < 2 {
+					if call, isCall := cs.(*ssa.Call); isCall {
+						BindParams(h, call, func() { scan(h, depth+1) })
+						continue
+					}
+				}
+				o := CalleeObj(cs.Common())
+				if o == nil || o.Pkg() == nil || !strings.HasSuffix(o.Pkg().Path(), "go-chash") || o.Name() == "Id" || o.Name() == "Capacity" {
+					continue
+				}
+				n++
+				cc := cs.Common()
+				if o.Name() != q.method || !IsLoadOfField(cc.Value, chashF) {
+					ok = false
+					continue
+				}
+				arg := cc.Args[0]
+				if !valueIsResultOf(arg, func(c2 *ssa.CallCommon) bool {
+					return CalleeFn(replKey)(c2) && originatesFromParam(c2.Args[0], q.fn.Params[1])
+				}) {
+					ok = false
+				}
 			}
 		}
+		scan(q.fn, 0)
 		c.Check(ok && n == 1, "C18.1-sibling-agreement", FuncName(q.fn)+"|chash."+q.method+"(ReplKey(spaceId))", p.Pos(q.fn.Pos()),
 			"queries the sync-node ring (nodeConf.chash) exactly once with ReplKey of its own spaceId parameter")
 	}
@@ -144,7 +156,10 @@ func runC18(c *Ctx) {
 			n++
 			// the slice argument: every append building it is gated by HasType(NodeTypeTree)
 			var apps []ssa.Instruction
-			Instrs(conv, func(in ssa.Instruction) {
+			// the list may be built by a helper the classification loop was extracted into
+			inFn, listVal := resolveProducer(conv, cc.Args[0])
+			c.Fn(FuncName(inFn))
+			Instrs(inFn, func(in ssa.Instruction) {
 				call, ok := in.(*ssa.Call)
 				if !ok {
 					return
@@ -153,7 +168,7 @@ func runC18(c *Ctx) {
 				if !isB || b.Name() != "append" {
 					return
 				}
-				if shareOriginDeep(call, cc.Args[0]) {
+				if shareOriginDeep(call, listVal) {
 					apps = append(apps, in)
 				}
 			})
@@ -165,7 +180,7 @@ func runC18(c *Ctx) {
 				k, isK := a[len(a)-1].(*ssa.Const)
 				return isK && k.Value != nil && k.Value.ExactString() == treeConst
 			}, 0, true)
-			c.RequireGate("C18.2-ring-membership", conv, g, apps, "append to the sync-node ring members")
+			c.RequireGate("C18.2-ring-membership", inFn, g, apps, "append to the sync-node ring members")
 		}
 		c.Check(n == 1, "C18.2-ring-membership", FuncName(conv)+"|chash.AddMembers", p.Pos(conv.Pos()), "the sync-node ring receives its members exactly once")
 		// ring parameters
